@@ -61,3 +61,15 @@ package fundraising
 //@ loop 2 invariant forall(j, int, 0 <= j && j < idx ==> let(e, genState.BidList[j], let(id, old(BidSeq[e.AuctionId]) + sum(i, 0, j, ite(genState.BidList[i].AuctionId == e.AuctionId, 1, 0)) + 1, Auction[e.AuctionId].present && Bid[e.AuctionId][id].present && Bid[e.AuctionId][id].Id == id && sameExcept(Bid[e.AuctionId][id], e, Id))))
 //@ loop 3 invariant 0 <= idx && idx <= len(genState.VestingQueueList)
 //@ loop 3 invariant forall(j, int, 0 <= j && j < idx ==> let(e, genState.VestingQueueList[j], Auction[e.AuctionId].present && VestingQueue[e.AuctionId][e.ReleaseTime].present && VestingQueue[e.AuctionId][e.ReleaseTime] == e))
+
+// AppModule.BeginBlock (C07, C08): the block hook of the module is the keeper's BeginBlocker and nothing else: what
+// BeginBlocker guarantees on success is guaranteed by the hook, and a failure of BeginBlocker is the hook's failure
+// (a hook that swallowed the error would have to establish these clauses on BeginBlocker's failure paths, where nothing
+// is known about the state).
+//@ func (AppModule).BeginBlock
+//@ requires Inv() && InvVQ() && InvMatched()
+//@ modifies Auction, Bid, MatchedBidsLen, VestingQueue, Bal, HookN, HookT, SetT, XferN, XferT, LastMatchTotal, LastMatchPrice
+//@ ensures [C08] status-moves-only-forward: result == nil ==> forall(x, uint64, old(Auction[x]).present ==> Auction[x].present && forward(old(Auction[x]).Status, Auction[x].Status))
+//@ ensures [C08,C12] waiting-auctions-open-exactly-at-their-start-time: result == nil ==> let(dom, old(domOf(Auction)), forall(j, int, 0 <= j && j < ilistN(dom) ==> let(x, ilistKey(dom, j), old(Auction[x]).Status == AuctionStatusStandBy ==> Auction[x].Status == ite(old(Auction[x]).StartTime <= BlockTime, AuctionStatusStarted, AuctionStatusStandBy))))
+//@ ensures [C07,C08,C12] finished-and-cancelled-are-permanent-and-harmless: result == nil ==> let(dom, old(domOf(Auction)), forall(j, int, 0 <= j && j < ilistN(dom) ==> let(x, ilistKey(dom, j), old(Auction[x]).Status == AuctionStatusFinished || old(Auction[x]).Status == AuctionStatusCancelled ==> Auction[x] == old(Auction[x]))))
+//@ ensures [C07,C08,C19] preserves-the-module-invariant: result == nil ==> Inv() && InvVQ() && InvMatched()
